@@ -314,7 +314,10 @@ func (s *Server) Shutdown(ctx context.Context) error {
 	for {
 		allIdle := true
 		for c := range s.activeConnections {
-			if !c.state.CompareAndSwap(connIdle, connClosed) && c.state.Load() == connHandling {
+			// only a connection that was taken out of idle by this compare-and-swap, or that has ended on its
+			// own, may be closed here. When the swap fails the connection is (or just was) handling a request
+			// and must be looked at again: it may already be idle with the next request about to be handled
+			if !c.state.CompareAndSwap(connIdle, connClosed) && c.state.Load() != connClosed {
 				allIdle = false
 				continue
 			}
